@@ -140,9 +140,23 @@ fn dec_cfs(d: Dec) -> Vec<(u8, u8)> {
     }
 }
 
+thread_local! {
+    /// Debug rendering of the last value decoded on this thread (only kept while WANT_RENDER is set).
+    static RENDERED: std::cell::RefCell<Option<String>> = const { std::cell::RefCell::new(None) };
+    static WANT_RENDER: std::cell::Cell<bool> = const { std::cell::Cell::new(false) };
+}
+
 async fn read_as(d: Dec, pt: &mut PacketTransport<crate::conn::SimConn>) -> bool {
     async fn rd<T: ZvtParser + Send + std::fmt::Debug>(pt: &mut PacketTransport<crate::conn::SimConn>) -> bool {
-        pt.read_packet::<T>().await.is_ok()
+        match pt.read_packet::<T>().await {
+            Ok(v) => {
+                if WANT_RENDER.with(|w| w.get()) {
+                    RENDERED.with(|r| *r.borrow_mut() = Some(format!("{v:?}")));
+                }
+                true
+            }
+            Err(_) => false,
+        }
     }
     match d {
         Dec::Registration => rd::<sequences::RegistrationResponse>(pt).await,
@@ -179,6 +193,14 @@ pub struct C02Plan {
     pub wire: Vec<u8>,
     pub sched: Sched,
     pub fault: String,
+    /// Metamorphic check "a number that does not fit is an error, not a silently wrapped value":
+    /// `wire[off..off+len]` is the value of one length-prefixed field, all zero. The image is decoded
+    /// three times - as it is (A), with 01 in the first byte of the field (B), with 01 in its last
+    /// byte (C). If the last byte matters (A and C both decode, to different values) the field is
+    /// consumed as a whole; then B must not decode to the same value as A: the high-order byte would
+    /// have been dropped without a trace.
+    #[serde(default)]
+    pub field: Option<(u32, u32)>,
 }
 
 struct Sink;
@@ -249,6 +271,52 @@ fn run_plan(plan: &C02Plan, want_trace: bool) -> RunOut {
             }
         }
     }
+    if let (Some((off, len)), Ok((o, _))) = (plan.field, &res) {
+        let (off, len) = (off as usize, len as usize);
+        if *o == "ok" && len >= 2 && off + len <= plan.wire.len() {
+            let render = |wire: Vec<u8>| -> Option<String> {
+                let log: SharedLog = Arc::new(Mutex::new(Log::default()));
+                let (conn, h) = sim_conn(0, Sched::whole(), Box::new(Sink), log);
+                h.with_io(|io| {
+                    io.release(&wire);
+                    io.close(CloseKind::Eof);
+                });
+                let mut pt = PacketTransport { source: conn };
+                WANT_RENDER.with(|w| w.set(true));
+                RENDERED.with(|r| *r.borrow_mut() = None);
+                let r = guarded(move || exec::run(read_as(dec, &mut pt), || false, budget).0);
+                WANT_RENDER.with(|w| w.set(false));
+                match r {
+                    Ok(Outcome::Done(true)) => RENDERED.with(|r| r.borrow_mut().take()),
+                    _ => None,
+                }
+            };
+            let a = render(plan.wire.clone());
+            let mut wb = plan.wire.clone();
+            wb[off] = 0x01;
+            let mut wc = plan.wire.clone();
+            wc[off + len - 1] = 0x01;
+            let (b, c) = (render(wb), render(wc));
+            if let (Some(a), Some(b), Some(c)) = (&a, &b, &c) {
+                if a != c {
+                    out.stats.hit("probe.field_value_consumed");
+                    if a == b {
+                        out.fail(
+                            "silently_wrapped",
+                            format!("{sigdec}/len{len}"),
+                            format!(
+                                "the {len}-byte field at offset {off} of {} is consumed (its last byte changes the decoded value) but 01 in its first byte decodes to the same value as all zeros: {}",
+                                crate::conn::hex(&plan.wire),
+                                &a[..a.len().min(300)]
+                            ),
+                        );
+                    }
+                }
+            } else if a.is_some() && c.is_some() && b.is_none() {
+                out.stats.hit("probe.oversized_number_refused");
+            }
+        }
+    }
     // 64 KiB is what the APDU header itself may announce (the transport sizes its
     // buffer from it before the body arrives); the rest is slack for error values
     // and harness bookkeeping.
@@ -286,6 +354,9 @@ fn run_plan(plan: &C02Plan, want_trace: bool) -> RunOut {
         "splice" => "fault.tag_splice",
         "stack" => "fault.stacked",
         "len" => "fault.apdu_length_edit",
+        "widen" => "fault.oversized_number",
+        "nest" => "fault.deep_nesting",
+        "ber_form" => "fault.ber_length_form",
         _ => "fault.none",
     });
     let log = log.lock().unwrap();
@@ -599,7 +670,80 @@ fn plan(dec: Dec, wire: Vec<u8>, fault: &str) -> C02Plan {
         wire,
         sched: Sched::whole(),
         fault: fault.to_string(),
+        field: None,
     }
+}
+
+/// Every primitive TLV leaf of `frame` (as the reference codec sees it) widened to `len` zero
+/// bytes, one image per leaf: (wire image, offset of the field's value in it).
+fn widened_leaves(frame: &[u8], len: usize) -> Vec<(Vec<u8>, u32)> {
+    const MARK: [u8; 24] = [0xa5, 0x5a, 0xc3, 0x3c, 0x96, 0x69, 0xf1, 0x1f, 0xab, 0x57, 0xcd, 0xdc, 0xe1, 0x1e, 0x9b, 0xb9, 0x7d, 0xd7, 0x8e, 0xe8, 0x6b, 0xb6, 0x4f, 0xf4];
+    fn leaves(ts: &[Tlv], path: &mut Vec<usize>, out: &mut Vec<Vec<usize>>) {
+        for (i, t) in ts.iter().enumerate() {
+            path.push(i);
+            match &t.val {
+                rc::TlvVal::Prim(_) => out.push(path.clone()),
+                rc::TlvVal::Cons(c) => leaves(c, path, out),
+            }
+            path.pop();
+        }
+    }
+    fn set(ts: &mut [Tlv], path: &[usize], v: &[u8]) {
+        let t = &mut ts[path[0]];
+        if path.len() == 1 {
+            t.val = rc::TlvVal::Prim(v.to_vec());
+        } else if let rc::TlvVal::Cons(c) = &mut t.val {
+            set(c, &path[1..], v);
+        }
+    }
+    let Ok(p) = Pkt::decode(frame) else { return vec![] };
+    let Some(ts) = p.tlvs() else { return vec![] };
+    let mut paths = vec![];
+    leaves(&ts, &mut vec![], &mut paths);
+    let mut out = vec![];
+    for path in paths {
+        let mut t2 = ts.clone();
+        set(&mut t2, &path, &MARK[..len.min(MARK.len())]);
+        let mut p2 = p.clone();
+        for b in p2.bmps.iter_mut() {
+            if b.0 == 0x06 {
+                b.1 = rc::enc_tlvs(&t2);
+            }
+        }
+        if p2.body().len() > 65535 {
+            continue;
+        }
+        let mut w = p2.encode();
+        let m = &MARK[..len.min(MARK.len())];
+        if let Some(off) = w.windows(m.len()).position(|x| x == m) {
+            for b in &mut w[off..off + m.len()] {
+                *b = 0;
+            }
+            out.push((w, off as u32));
+        }
+    }
+    out
+}
+
+/// `depth` constructed TLV objects nested inside each other (tags from `tags`, cycled), inside the
+/// TLV container of a packet `cf`; innermost a primitive. Lengths exact.
+fn nested_frame(cf: (u8, u8), prefix: &[u8], tags: &[u16], depth: usize) -> Option<Vec<u8>> {
+    let mut inner = Tlv::prim(0x1f4c, &[1]).encode();
+    for d in 0..depth {
+        let tag = tags[(depth - 1 - d) % tags.len()];
+        let mut t = rc::tag_bytes(tag);
+        t.extend(rc::ber_len(inner.len()));
+        t.extend(inner);
+        inner = t;
+    }
+    let mut body = prefix.to_vec();
+    body.push(0x06);
+    body.extend(rc::ber_len(inner.len()));
+    body.extend(inner);
+    if body.len() > 65535 {
+        return None;
+    }
+    Some(rc::apdu(cf, &body))
 }
 
 impl Check for C02 {
@@ -709,6 +853,43 @@ impl Check for C02 {
                 body.splice(at..at + 1, rep);
                 body.truncate(65535);
                 plan(d, rc::apdu((f[0], f[1]), &body), "ber_form")
+            }));
+        }
+        // 2c. every length-prefixed TLV field of the corpus widened beyond any integer: a number that
+        // does not fit is an error, never a silently wrapped value (metamorphic, see C02Plan::field)
+        {
+            let mut cases: Vec<(Vec<u8>, u32, u32)> = vec![];
+            for f in corpus.iter() {
+                for len in [9usize, 11, 17] {
+                    for (w, off) in widened_leaves(f, len) {
+                        cases.push((w, off, len as u32));
+                    }
+                }
+            }
+            let cases = Arc::new(cases);
+            let n = cases.len() as u64;
+            fams.push(Family::new("oversized_numbers_are_errors_not_wrapped", n * nd, true, move |i, _| {
+                let (w, off, len) = &cases[(i / nd) as usize];
+                let mut p = plan(ALL_DECS[(i % nd) as usize], w.clone(), "widen");
+                p.field = Some((*off, *len));
+                p
+            }));
+        }
+        // 2d. constructed TLV objects nested 1..2000 deep (known and unknown tags), exact lengths: decoding
+        // costs time and memory proportional to the input, whatever the log level
+        {
+            const DEPTHS: [usize; 9] = [1, 2, 8, 33, 100, 200, 400, 1000, 2000];
+            const TAGSETS: [&[u16]; 5] = [&[0xe1], &[0x62, 0x60], &[0x25], &[0x2d, 0xe4, 0x34], &[0xff21, 0x7f, 0xe9]];
+            const HOSTS: [((u8, u8), &[u8]); 5] = [((0x04, 0x0f), &[0x27, 0x00]), ((0x06, 0x0f), &[]), ((0x06, 0xd3), &[]), ((0x04, 0x0c), &[]), ((0x06, 0x1e), &[0x6f, 0x09, 0x78])];
+            let n = (DEPTHS.len() * TAGSETS.len() * HOSTS.len()) as u64;
+            fams.push(Family::new("deeply_nested_containers", n * nd, true, move |i, _| {
+                let d = ALL_DECS[(i % nd) as usize];
+                let k = (i / nd) as usize;
+                let depth = DEPTHS[k % DEPTHS.len()];
+                let tags = TAGSETS[(k / DEPTHS.len()) % TAGSETS.len()];
+                let (cf, prefix) = HOSTS[k / DEPTHS.len() / TAGSETS.len()];
+                let w = nested_frame(cf, prefix, tags, depth).unwrap_or_else(|| rc::apdu(cf, prefix));
+                plan(d, w, "nest")
             }));
         }
         // 3. runs of 0x99 (BCD digits beyond the integer width), every offset
